@@ -29,7 +29,7 @@ from .common import Evidence
 from .harness import CaseFailure
 
 PROP = "C16"
-RULE = ("fault plan = (step, k, kind); the grid of 11 steps x 29 kinds is enumerated completely; non-trivial = the fault "
+RULE = ("fault plan = (step, k, kind); the grid of 11 steps x 32 kinds is enumerated completely; non-trivial = the fault "
         "actually fired (the stand-in logged the injection); all plans are distinct. Generated part: sequences of 2-3 "
         "faults on successive launches of the co-process")
 
@@ -37,7 +37,8 @@ STEPS = [("before_ready", 1), ("after_ready", 1)] + [(s, k) for s in ("on_reques
 KINDS = ["exit0", "exit1", "sigkill", "close_stdin", "close_stdout", "close_both"] + ["short_header:%d" % n for n in range(1, 8)] + \
         ["wrong_version", "wrong_type", "len_over_max", "payload_short_then_eof", "payload_longer", "bad_tag", "array_count_huge",
          "string_len_past_end", "ffi_error_empty", "ffi_error_1mb", "string_len_wrap", "array_inner_string_wrap", "array_nested_deep",
-         "ffi_error_300", "ffi_error_20000", "array_count_huge_one_elem"]
+         "ffi_error_300", "ffi_error_20000", "array_count_huge_one_elem",
+         "wrong_version_then_linger", "wrong_type_then_linger", "garbage_then_linger"]
 
 WORKLOAD = '''extern fn labs(x: int) -> int
 fn main() -> int {
